@@ -126,19 +126,9 @@ def rule_forwarding(ctx: Ctx, repo: Repo) -> None:
     d = init.defaults().get("sample_rate")
     ctx.check(d is not None and isinstance(d, ast.Constant) and d.value is None, "R-C18.5", init.fq,
               "the tracer's default sample rate is None (trace everything)", construct=f"default {norm(d)}")
-    tc = repo.fn(M, "trace_calls")
-    sites = [s for s in call_sites(repo, lambda c: c is init) if s[0] is tc]
-    ctx.floor("R-C18.5", "CallTracer(...) construction in trace_calls", len(sites), 1)
-    for caller, call, callee in sites:
-        a = bound_argument(callee, call, "sample_rate")
-        ctx.check(a is not None and dotted(a) == "sample_rate", "R-C18.5", caller.fq,
-                  "trace_calls forwards its sample_rate to the tracer", construct=norm(call), node=call)
-    sites = call_sites(repo, lambda c: c is tc)
-    ctx.floor("R-C18.5", "call of trace_calls", len(sites), 1)
-    for caller, call, callee in sites:
-        a = bound_argument(callee, call, "sample_rate")
-        okk = a is not None and isinstance(a, ast.Call) and isinstance(a.func, ast.Attribute) and a.func.attr == "sample_rate" and not a.args
-        ctx.check(okk, "R-C18.5", caller.fq, "trace() passes config.sample_rate() to trace_calls", construct=norm(call), node=call)
+    from . import glue_model as GM
+    GM.check_tracer_forwarding(ctx, repo, "R-C18.5", "sample_rate", "sample_rate", "trace_calls forwards its sample_rate to the tracer")
+    GM.check_forwarding(ctx, repo, "R-C18.5", "sample_rate", "sample_rate", "trace() passes config.sample_rate() to trace_calls")
     cfgc = repo.cls("monkeytype.config", "Config")
     for c in [cfgc] + repo.subclasses(cfgc):
         m = c.methods.get("sample_rate")
